@@ -146,6 +146,49 @@ type cnode struct {
 	applied  int // highest version explicitly applied to the runtime by the simulator
 	isolated bool
 	quorumRT *replication.Runtime // production composition only
+	qlog     *recordingQuorumLog  // production composition only: what the reactor handed to the quorum log
+}
+
+// recordingQuorumLog is the production quorum log (replication.Runtime.Log())
+// with a call record in front of it: every Install the reactor submitted. It
+// adds no waiting and changes no argument or result.
+type recordingQuorumLog struct {
+	inner    replication.DurableQuorumLog
+	mu       sync.Mutex
+	installs []quorumInstallRec
+}
+
+type quorumInstallRec struct {
+	auth replication.Authority
+	done bool
+	err  error
+}
+
+func (l *recordingQuorumLog) Install(ctx context.Context, a replication.Authority) (replication.Installed, error) {
+	l.mu.Lock()
+	i := len(l.installs)
+	a.Voters = append([]ch.NodeID(nil), a.Voters...)
+	l.installs = append(l.installs, quorumInstallRec{auth: a})
+	l.mu.Unlock()
+	res, err := l.inner.Install(ctx, a)
+	l.mu.Lock()
+	l.installs[i].done, l.installs[i].err = true, err
+	l.mu.Unlock()
+	return res, err
+}
+
+func (l *recordingQuorumLog) Commit(ctx context.Context, p replication.Proposal) (replication.Receipt, error) {
+	return l.inner.Commit(ctx, p)
+}
+
+// installsSnapshot returns the Install calls submitted so far, in submission order.
+func (l *recordingQuorumLog) installsSnapshot() []quorumInstallRec {
+	if l == nil {
+		return nil
+	}
+	l.mu.Lock()
+	defer l.mu.Unlock()
+	return append([]quorumInstallRec(nil), l.installs...)
 }
 
 type cworld struct {
@@ -345,7 +388,8 @@ func newWorldOpts(r *simkit.Run, n int, mkStore func(id ch.NodeID) (channelstore
 				return nil, err
 			}
 			nd.quorumRT = rt
-			quorumLog = rt.Log()
+			nd.qlog = &recordingQuorumLog{inner: rt.Log()}
+			quorumLog = nd.qlog
 		}
 		svc, err := channels.NewService(channels.Config{
 			QuorumLog:    quorumLog,
